@@ -265,7 +265,7 @@ def build(case):
         def fwd(x):
             v = jnp.concatenate([x["a"], x["b"]])
             return jnp.exp(a * v) if kind == "exp" else a * v + 0.1 * v ** 3
-        pos0 = {"a": jnp.zeros(h) + case["pos0"], "b": jnp.zeros(len(case["data"]) - h) - case["pos0"]}
+        pos0 = jft.Vector({"a": jnp.zeros(h) + case["pos0"], "b": jnp.zeros(len(case["data"]) - h) - case["pos0"]})
     else:
         dom = jft.ShapeWithDtype((len(case["data"]),))
 
